@@ -113,7 +113,14 @@ def links_by_endpoint(model, rep):
 def r2(model, rep):
     rel = model.rel("diagram")
     fn = model.norm_func("diagram", "_diag")
-    helper = [x for x in fn.body if isinstance(x, ast.FunctionDef)][0]
+    helpers = [x for x in fn.body if isinstance(x, ast.FunctionDef)]
+    if not helpers:
+        # the node-building code stands inline in _diag (or was brought there from a module-level helper): the whole-function comparison of
+        # R1 reads it in place - its reference text inlines the closure in the same way - so precedence is decided there
+        rep.instance("R2", "diagram._diag node attributes (inline, decided by R1)", "%s:%d" % (rel, fn.lineno),
+                     not any(f.rule == "R1" for f in rep.findings))
+        return
+    helper = helpers[0]
     ps = [a.arg for a in helper.args.args]
     if len(ps) != 4:
         raise AnalysisError("node helper has %d parameters" % len(ps))
